@@ -191,6 +191,15 @@ def sn_sig_other_key(s, r): s.k["sn_signer"] = regsim.rsa_key("safetynet_other")
 def sn_two_parts(s, r): s.k["sn_jws"] = lambda h, p, sg: (h + "." + p).encode()
 def sn_four_parts(s, r): s.k["sn_jws"] = lambda h, p, sg: (h + "." + p + "." + sg + ".x").encode()
 
+def tpm_alg_foreign(alg):
+    # the statement names an algorithm the (RSA / EC) attestation key cannot have made the signature with; Ed25519 attestation keys are
+    # left out: verify_signature does not consult the algorithm for them (scope note in DESIGN, C09)
+    def f(s, r):
+        if authsim.KINDS[s.att_kind][0] == "ed":
+            s.att_kind = "RS256"
+        stmt_set("alg", alg)(s, r)
+    return f
+
 def cred_other_curve_same_xy(s, r):
     # the credential key in the authenticator data declares another curve than the certified P-256 key, with the same x / y
     s.kind = "ES256-P256"
@@ -227,7 +236,7 @@ FORMAT_FAULTS = {
         "aik-subject-not-empty": tpm_subject, "aik-san-absent": tpm_san_absent, "aik-unknown-vendor": tpm_san_unknown_vendor, "aik-san-no-model": tpm_san_no_model,
         "aik-eku-wrong": tpm_eku_wrong, "aik-eku-absent": tpm_eku_absent, "aik-ca-true": tpm_bc_ca, "aik-basic-constraints-absent": tpm_bc_absent,
         "ecc-curve-unmappable": set_k(tpm_curve=0x0001), "name-alg-unmappable": set_k(tpm_name_alg_raw="SM3_256"),
-        "alg-unregistered-es384": stmt_set("alg", -35), "alg-unregistered-es256k": stmt_set("alg", -47), "alg-of-other-family-eddsa": stmt_set("alg", -8),
+        "alg-unregistered-es384": tpm_alg_foreign(-35), "alg-unregistered-es256k": tpm_alg_foreign(-47), "alg-of-other-family-eddsa": tpm_alg_foreign(-8),
         "sig-missing": stmt_drop("sig"), "certinfo-missing": stmt_drop("certInfo"), "pubarea-missing": stmt_drop("pubArea"), "alg-missing": stmt_drop("alg"), "x5c-missing": stmt_drop("x5c"),
     },
     "apple": {
